@@ -204,6 +204,44 @@ STRESS_SINKS = [
     ("QWidget", "onWindowTitleChanged"), ("QPushButton", "onClicked"), ("QWidget", "id"),
     ("QWidget", "QLayout.row"), ("QWidget", "QTabWidget.title"), ("VObj", "p"), ("VObj", "v"),
     ("VObj", "sl"), ("VObj", "e"), ("VObj", "f"), ("VObj", "u"), ("VObj", "wo"), ("VObj", "ro"),
+    ("QWidget", "Foo"), ("QWidget", "Foo.Bar"), ("QWidget", "Foo.bar"), ("QWidget", "QLayout.Row"),
+    ("QWidget", "QLayout"), ("QWidget", "foo.Bar"), ("QWidget", "on"), ("QWidget", "onX"),
+    ("QWidget", "Qt.foo"), ("QWidget", "QWidget.windowTitle"), ("QWidget", "QSizePolicy.horizontalPolicy"),
+]
+
+
+# ----------------------------------------------------------------- project (directory) cases
+
+PROJECTS = [
+    # name, {relative path: text}, [sources]
+    ("self-cycle", {"Loop.qml": "Loop { }\n"}, ["Loop.qml"]),
+    ("self-cycle-import", {"Loop.qml": "import qmluic.QtWidgets\nLoop { windowTitle: \"x\" }\n"}, ["Loop.qml"]),
+    ("two-cycle", {"Ping.qml": "import qmluic.QtWidgets\nPong { }\n", "Pong.qml": "import qmluic.QtWidgets\nPing { }\n"},
+     ["Ping.qml", "Pong.qml"]),
+    ("cycle-as-child", {"Ping.qml": "import qmluic.QtWidgets\nPong { }\n", "Pong.qml": "import qmluic.QtWidgets\nPing { }\n",
+                        "Main.qml": "import qmluic.QtWidgets\nQWidget { Ping { id: p; windowTitle: \"x\" } QLabel { buddy: p } }\n"},
+     ["Main.qml"]),
+    ("cycle-behind-real-base", {"Ouro.qml": "import qmluic.QtWidgets\nBoros { }\n", "Boros.qml": "import qmluic.QtWidgets\nOuro { }\n",
+                                "Main.qml": "import qmluic.QtWidgets\nQWidget { QVBoxLayout { Ouro { } Boros { } } }\n"},
+     ["Main.qml", "Ouro.qml"]),
+    ("three-cycle-across-dirs", {"A.qml": "import qmluic.QtWidgets\nimport \"d\"\nB { }\n",
+                                 "d/B.qml": "import qmluic.QtWidgets\nimport \"../e\"\nC { }\n",
+                                 "e/C.qml": "import qmluic.QtWidgets\nimport \"..\"\nA { }\n",
+                                 "Main.qml": "import qmluic.QtWidgets\nQDialog { A { onWindowTitleChanged: 1 } }\n"},
+     ["Main.qml", "A.qml", "d/B.qml", "e/C.qml"]),
+    ("import-cycle", {"Main.qml": "import qmluic.QtWidgets\nimport \"d\"\nQWidget { X { } }\n",
+                      "d/X.qml": "import qmluic.QtWidgets\nimport \"..\"\nimport \".\"\nimport \"../d\"\nQWidget { }\n"},
+     ["Main.qml", "d/X.qml"]),
+    ("shadowing-qt-class", {"QLabel.qml": "import qmluic.QtWidgets\nQLabel { }\n",
+                            "Main.qml": "import qmluic.QtWidgets\nQWidget { QLabel { text: \"x\" } }\n"},
+     ["Main.qml", "QLabel.qml"]),
+    ("component-with-syntax-error", {"Bad.qml": "import qmluic.QtWidgets\nQWidget { windowTitle: }\n",
+                                     "Main.qml": "import qmluic.QtWidgets\nQWidget { Bad { } }\n"},
+     ["Main.qml", "Bad.qml"]),
+    ("empty-and-odd-files", {"Empty.qml": "", "Only.qml": "import qmluic.QtWidgets\n", "lower.qml": "import qmluic.QtWidgets\nQWidget { }\n",
+                             "Main.qml": "import qmluic.QtWidgets\nQWidget { Empty { } Only { } lower { } }\n"},
+     ["Main.qml", "Empty.qml", "Only.qml", "lower.qml"]),
+    ("missing-import-dir", {"Main.qml": "import qmluic.QtWidgets\nimport \"nodir\"\nimport \"Main.qml\"\nQWidget { }\n"}, ["Main.qml"]),
 ]
 
 STRESS_VALUES = [
